@@ -21,7 +21,22 @@ import (
 	fixedlength2 "github.com/jf-tech/omniparser/extensions/omniv21/fileformat/flatfile/fixedlength"
 	"github.com/jf-tech/omniparser/extensions/omniv21/transform"
 	"github.com/jf-tech/omniparser/idr"
+
+	"github.com/antchfx/xpath"
 )
+
+// filterXPath is the FINAL_OUTPUT xpath of filtered cases: the target itself, unless some unit in it
+// (any depth) carries the flag value 'X'
+const filterXPath = ".[not(.//f = 'X')]"
+
+var filterExpr = xpath.MustCompile(filterXPath)
+
+func flagOf(u Unit) string {
+	if u.Rej {
+		return "X"
+	}
+	return "K"
+}
 
 const undeclaredName = 24 // 'X': never used by a declaration
 const maxLines = 14       // id columns declared per record (lines of a multi-line record; words have <= 14 units)
@@ -56,8 +71,9 @@ func parseName(s string) int {
 	return -1
 }
 
-// project turns a delivered node into (name, ids, child instances): children whose name starts
-// with 'c' are id columns/elements, every other element child is a child instance.
+// project turns a delivered node into (name, ids, texts, child instances): children named c<i> are
+// id columns/elements, f is the filter flag, x<i> the extra text element; every other element
+// child is a child instance.
 func project(n *idr.Node) *Inst {
 	budget := 20000
 	return projectN(n, 0, &budget)
@@ -77,7 +93,18 @@ func projectN(n *idr.Node, depth int, budget *int) *Inst {
 		if c.Type != idr.ElementNode {
 			continue
 		}
-		if len(c.Data) > 0 && c.Data[0] == 'c' {
+		if c.Data == "f" {
+			continue // the filter flag
+		}
+		if len(c.Data) > 1 && c.Data[0] == 'x' {
+			t := ""
+			if c.FirstChild != nil {
+				t = c.FirstChild.Data
+			}
+			in.X = append(in.X, t)
+			continue
+		}
+		if len(c.Data) > 1 && c.Data[0] == 'c' {
 			id := -1
 			if t := c.FirstChild; t != nil && t.Type == idr.TextNode {
 				if v, err := strconv.Atoi(t.Data); err == nil {
@@ -140,9 +167,12 @@ func (r *hReader) ReadAndMatch(decl flatfile.RecDecl, createIDR bool) (bool, *id
 	}
 	node := idr.CreateNode(idr.ElementNode, decl.DeclName())
 	for _, u := range r.rest[:n] {
-		c := idr.CreateNode(idr.ElementNode, "c")
+		c := idr.CreateNode(idr.ElementNode, "c1")
 		idr.AddChild(node, c)
 		idr.AddChild(c, idr.CreateNode(idr.TextNode, strconv.Itoa(u.ID)))
+		f := idr.CreateNode(idr.ElementNode, "f")
+		idr.AddChild(node, f)
+		idr.AddChild(f, idr.CreateNode(idr.TextNode, flagOf(u)))
 	}
 	r.rest = r.rest[n:]
 	return true, node, nil
@@ -191,12 +221,16 @@ func pump(rd nodeReader, cap int, release int, classify func(error, *Result)) (r
 	}
 }
 
-func runDirect(ds []*Decl, us []Unit, release int) *Result {
+func runDirect(ds []*Decl, us []Unit, release int, filter bool) *Result {
+	var expr *xpath.Expr
+	if filter {
+		expr = filterExpr
+	}
 	rr := &hReader{rest: append([]Unit(nil), us...)}
 	var hr *flatfile.HierarchyReader
 	func() {
 		defer func() { _ = recover() }()
-		hr = flatfile.NewHierarchyReader(toHDecls(ds), rr, nil)
+		hr = flatfile.NewHierarchyReader(toHDecls(ds), rr, expr)
 	}()
 	if hr == nil {
 		return &Result{Term: "panic", Detail: "NewHierarchyReader panicked"}
@@ -268,6 +302,7 @@ func csvRecords(ds []*Decl, omit bool) []jobj {
 			cols := []jobj{}
 			for i := 1; i <= leafLines(d.Leaf); i++ {
 				cols = append(cols, jobj{"name": fmt.Sprintf("c%d", i), "index": 2, "line_index": i})
+				cols = append(cols, jobj{"name": "f", "index": 3, "line_index": i})
 			}
 			o["columns"] = cols
 		}
@@ -304,6 +339,7 @@ func fixedEnvelopes(ds []*Decl, omit bool) []jobj {
 			cols := []jobj{}
 			for i := 1; i <= leafLines(d.Leaf); i++ {
 				cols = append(cols, jobj{"name": fmt.Sprintf("c%d", i), "start_pos": 2, "length": 4, "line_index": i})
+				cols = append(cols, jobj{"name": "f", "start_pos": 6, "length": 1, "line_index": i})
 			}
 			o["columns"] = cols
 		}
@@ -326,7 +362,8 @@ func ediSegments(ds []*Decl, omit bool) []jobj {
 		if d.Group {
 			o["type"] = "segment_group"
 		} else {
-			o["elements"] = []jobj{{"name": "c1", "index": 1, "default": "-1"}}
+			o["elements"] = []jobj{{"name": "c1", "index": 1, "default": "-1"}, {"name": "f", "index": 2, "default": "K"},
+				{"name": "x1", "index": 3, "default": ""}}
 		}
 		if len(d.Kids) > 0 || d.Group {
 			o["child_segments"] = ediSegments(d.Kids, omit)
@@ -336,7 +373,7 @@ func ediSegments(ds []*Decl, omit bool) []jobj {
 	return out
 }
 
-func schemaFor(driver string, ds []*Decl, omit bool) string {
+func schemaFor(driver string, ds []*Decl, omit bool, relChar bool) string {
 	var fd jobj
 	switch driver {
 	case "csv2":
@@ -345,6 +382,9 @@ func schemaFor(driver string, ds []*Decl, omit bool) string {
 		fd = jobj{"envelopes": fixedEnvelopes(ds, omit)}
 	default:
 		fd = jobj{"segment_delimiter": "~", "element_delimiter": "*", "segment_declarations": ediSegments(ds, omit)}
+		if relChar {
+			fd["release_character"] = "?"
+		}
 	}
 	b, _ := json.Marshal(jobj{"file_declaration": fd})
 	return string(b)
@@ -355,11 +395,11 @@ func inputFor(driver string, us []Unit) []byte {
 	for _, u := range us {
 		switch driver {
 		case "csv2":
-			fmt.Fprintf(&sb, "%s,%d\n", nameStr(u.Name), u.ID)
+			fmt.Fprintf(&sb, "%s,%d,%s\n", nameStr(u.Name), u.ID, flagOf(u))
 		case "fixedlength2":
-			fmt.Fprintf(&sb, "%s%04d\n", nameStr(u.Name), u.ID)
+			fmt.Fprintf(&sb, "%s%04d%s\n", nameStr(u.Name), u.ID, flagOf(u))
 		default:
-			fmt.Fprintf(&sb, "%s*%d~", nameStr(u.Name), u.ID)
+			fmt.Fprintf(&sb, "%s*%d*%s*%s~", nameStr(u.Name), u.ID, flagOf(u), u.Txt)
 		}
 	}
 	return sb.Bytes()
@@ -377,14 +417,19 @@ func formatOf(driver string) (fileformat.FileFormat, string, func(error) bool) {
 }
 
 // validate runs the real schema validation; nil runtime = rejected.
-func validate(driver, schema string) (rt interface{}, err error) {
+func validate(driver, schema string, filter bool) (rt interface{}, err error) {
 	defer func() {
 		if p := recover(); p != nil {
 			rt, err = nil, fmt.Errorf("panic in ValidateSchema: %v", p)
 		}
 	}()
 	ff, format, _ := formatOf(driver)
-	return ff.ValidateSchema(format, []byte(schema), &transform.Decl{})
+	fo := &transform.Decl{}
+	if filter {
+		x := filterXPath
+		fo.XPath = &x
+	}
+	return ff.ValidateSchema(format, []byte(schema), fo)
 }
 
 // runFormat runs the real format reader; the schema must have been accepted.
